@@ -19,6 +19,7 @@ def run(chk):
     r14b(chk)
     r14c(chk)
     r14d(chk)
+    r14h(chk)
     from .c13 import r13a, r13c
 
     r13c(chk, 'R14.e')
@@ -69,7 +70,7 @@ def r14g(chk, rid='R14.g'):
 
 
 def r14a(chk, rid='R14.a'):
-    chk.rule(rid, 'known-name list refreshed: in every public registry mutator, every normal path on which the compiled table _profilesProperties is written (directly or through _resetProperties) passes __update_knownNames afterwards')
+    chk.rule(rid, 'known-name list refreshed: in every public registry mutator, every normal path on which an entry of the compiled table _profilesProperties is added or removed passes __update_knownNames afterwards (_resetProperties re-expands the entries of the registered names and leaves the name set alone; R14.h compares the known names after every operation)')
     eff = Effects.get(chk.repo)
     if not hasattr(eff, 'writes'):
         eff.compute_writes(scratch={'_readonly', '_log'})
@@ -79,12 +80,9 @@ def r14a(chk, rid='R14.a'):
         g = cfgmod.CFG(fn)
 
         def touches(nd):
-            if _writes(nd, '_profilesProperties'):
-                return True
-            for c in cfgmod.calls_at(nd):
-                if call_name(c) in ('self._resetProperties',):
-                    return True
-            return False
+            # _resetProperties rebuilds the tables for the names already registered: it changes
+            # patterns, never the set of property names, so it needs no refresh of its own
+            return _writes(nd, '_profilesProperties')
 
         def refresh(nd):
             for c in cfgmod.calls_at(nd):
@@ -107,7 +105,7 @@ def r14a(chk, rid='R14.a'):
         if name == 'addProfiles':
             calls = [c for nd in g.nodes for c in cfgmod.calls_at(nd) if call_name(c) == 'self.addProfile']
             chk.ob(rid, P, 'Profiles.addProfiles', 'adds each profile through addProfile', bool(calls), '')
-    if n < 4:
+    if n < 3:
         raise AnalysisError(f'only {n} table writes found')
     # __update_knownNames rebuilds from scratch
     fn = chk.repo.fn(P, 'Profiles.__update_knownNames')
@@ -178,15 +176,41 @@ def r14c(chk, rid='R14.c'):
     for n in ast.walk(ast.Module(body=allb[0].orelse, type_ignores=[])):
         if isinstance(n, ast.If) and any(isinstance(c, ast.Call) and call_name(c) == 'self._resetProperties' for s2 in n.body for c in ast.walk(s2)):
             ctrl.append(n)
-    okc = len(ctrl) == 1
-    if okc:
-        t = ctrl[0].test
-        if isinstance(t, ast.Name):
-            # a flag: set to True only under a truthiness test of the removed profile's macros
-            setters = [x for x in ast.walk(fn) if isinstance(x, ast.Assign) and text(x.targets[0]) == t.id and text(x.value) == 'True']
-            okc = bool(setters) and all(isinstance(m.parents.get(x), ast.If) and text(m.parents[x].test) == "self._rawProfiles[profile]['macros']" for x in setters)
-        else:
-            okc = text(t) in ("self._rawProfiles[profile]['macros']", 'macros')
+    if len(ctrl) != 1:
+        raise AnalysisError(f'removeProfile: {len(ctrl)} conditional calls of _resetProperties (one expected)')
+    HAD = "self._rawProfiles[profile]['macros']"
+
+    def verdict(cond):
+        """True: exactly "the removed profile had macros"; False: narrower; None: not recognised."""
+        while isinstance(cond, ast.Call) and call_name(cond) == 'bool' and len(cond.args) == 1:
+            cond = cond.args[0]
+        if text(cond) == HAD:
+            return True
+        if isinstance(cond, ast.Name):
+            # a local holding the macros of the removed profile, or a flag
+            binds = [x for x in ast.walk(fn) if isinstance(x, ast.Assign) and text(x.targets[0]) == cond.id]
+            vs = []
+            for x in binds:
+                if isinstance(x.value, ast.Constant) and x.value.value is False:
+                    continue
+                if isinstance(x.value, ast.Constant) and x.value.value is True:
+                    par = m.parents.get(x)
+                    if not (isinstance(par, ast.If) and x in par.body):
+                        return None
+                    vs.append(verdict(par.test))
+                else:
+                    vs.append(verdict(x.value))
+            if not vs or any(v is None for v in vs):
+                return None
+            return all(vs)
+        if isinstance(cond, ast.BoolOp) and isinstance(cond.op, ast.And) and any(verdict(v) for v in cond.values):
+            return False  # a further condition
+        return None
+
+    okc = verdict(ctrl[0].test)
+    if okc is None:
+        chk.ob(rid, P, 'Profiles.removeProfile', 'condition of the re-expansion is in a recognised form', False, f'`{text(ctrl[0].test)}`', shape=True)
+        okc = True
     chk.ob(rid, P, 'Profiles.removeProfile', 'the rest is re-expanded whenever the removed profile had macros (no further condition)', okc,
            'macros of the removed profile that shadow a macro of another profile stay compiled into the remaining patterns: add + remove does not restore the verdicts')
     # derived state is recomputed, never patched
@@ -206,17 +230,159 @@ def r14c(chk, rid='R14.c'):
 
 
 def r14d(chk, rid='R14.d'):
-    chk.rule(rid, 'restricting the default profiles changes only which profile is reported: validateWithProfile consults the given/default profiles first and then every other registered profile (the complement over _profileNames), so validity is "some registered profile accepts"; the defaultProfiles setter only stores the value')
+    chk.rule(rid, 'restricting the default profiles changes only which profile is reported: Profiles.validateWithProfile (with the helpers and property getters it uses, resolved in the class) is evaluated on its syntax tree over a three-profile registry - each profile lacks the property, accepts, rejects or fails on the value - for every selection (none, a name, tuples in both orders, all three) and every default selection: validity is "some registered profile accepts", matching is "some selected profile accepts", the reported profile is the last selected one that accepts, else the first other one; the defaultProfiles setter only stores the value')
+    import itertools
+
+    from sa.absint import Evaluator, Raised, Record, _Raise
+
+    m = chk.repo.mod(P)
     fn = chk.repo.fn(P, 'Profiles.validateWithProfile')
-    loops = [n for n in ast.walk(fn) if isinstance(n, ast.For)]
-    its = [text(l.iter) for l in loops]
-    chk.ob(rid, P, 'Profiles.validateWithProfile', 'first the requested profiles', any(i == 'reversed(profiles)' for i in its), str(its))
-    chk.ob(rid, P, 'Profiles.validateWithProfile', 'then all remaining registered profiles', any('for p in self._profileNames if p not in profiles' in i for i in its), str(its))
-    rets = [text(r.value) for r in ast.walk(fn) if isinstance(r, ast.Return)]
-    chk.ob(rid, P, 'Profiles.validateWithProfile', 'matching is False when only a remaining profile accepts, validity stays True', '(True, False, [profilename])' in rets and '(True, True, [profilename])' in rets, str(rets))
-    st = chk.repo.fn(P, 'Profiles._setDefaultProfiles')
+    names = ['A', 'B', 'C']
+    selections = [None, 'B', ('B',), ('A', 'B'), ('B', 'A'), ['C', 'A', 'B'], ('C',)]
+    defaults = [None, ('B',), 'C', ('A', 'C')]
+
+    def validator(kind):
+        def v(value):
+            if kind == 'raise':
+                raise _Raise('Exception')
+            return kind == 'accept'
+        return v
+
+    n = bad = 0
+    first_bad = None
+    for kinds in itertools.product(('absent', 'accept', 'reject', 'raise'), repeat=3):
+        beh = dict(zip(names, kinds))
+        for sel in selections:
+            for dflt in defaults:
+                if sel is not None and dflt is not None and dflt != ('B',):
+                    continue  # the default is not consulted when a selection is given
+                props = {p: ({'x': validator(beh[p])} if beh[p] != 'absent' else {'y': validator('reject')}) for p in names}
+                me = Record(_profileNames=list(names), _profilesProperties=props, _defaultProfiles=dflt,
+                            _knownNames=[k for p in names for k in props[p]], _log=Record(error=lambda *a, **k: None))
+                ev = Evaluator(fn, intrinsics={'self._log.error': lambda *a, **k: None}, module=m, cls='Profiles')
+                got = ev.run(self=me, name='x', value='v', profiles=sel)
+                n += 1
+                given = sel if sel else (dflt if dflt else names)
+                given = (given,) if isinstance(given, str) else given
+                acc_given = [p for p in reversed(list(given)) if beh[p] == 'accept']
+                acc_rest = [p for p in names if p not in given and beh[p] == 'accept']
+                if acc_given:
+                    want = (True, True, [acc_given[0]])
+                elif acc_rest:
+                    want = (True, False, [acc_rest[0]])
+                else:
+                    want = (False, False, sorted(p for p in names if beh[p] != 'absent'))
+                got_n = (got[0], got[1], list(got[2])) if isinstance(got, tuple) and len(got) == 3 else got
+                if got_n != want:
+                    bad += 1
+                    if first_bad is None:
+                        first_bad = f'registry {beh}, profiles={sel!r}, defaultProfiles={dflt!r}: answers {got}, expected {want}'
+    chk.extra['validateWithProfile_evaluations'] = n
+    chk.ob(rid, P, 'Profiles.validateWithProfile', f'all {n} registry/selection cases: validity = some registered profile accepts; matching = a selected profile accepts', bad == 0,
+           f'{bad} cases differ, e.g. {first_bad}')
     eff = Effects.get(chk.repo)
+    if not hasattr(eff, 'writes'):
+        eff.compute_writes(scratch={'_readonly', '_log'})
     w = eff.writes.get((P, 'Profiles._setDefaultProfiles'), set())
     chk.ob(rid, P, 'Profiles._setDefaultProfiles', 'only stores the selection', w == {'_defaultProfiles'}, f'writes {sorted(w)}')
-    gd = ast.unparse(chk.repo.fn(P, 'Profiles._getDefaultProfiles'))
-    chk.ob(rid, P, 'Profiles._getDefaultProfiles', 'no selection means all registered profiles', 'return self.profiles' in gd, '', shape=True)
+
+
+# ---------------------------------------------------------------------------
+# R14.h - the registry operations, evaluated on generic instances (inductive step)
+def _reference_state(builtin, content):
+    """The state the property prescribes for a registry holding `content`
+    ([(name, properties, macros)] in registration order)."""
+    import re as _re
+
+    env = dict(builtin)
+    for _, _, macros in content:
+        env.update(macros)
+
+    def expand(v):
+        if callable(v):
+            return v
+        while _re.search(r'{[a-z][a-z0-9-]*}', v):
+            v = _re.sub(r'{(?P<macro>[a-z][a-z0-9-]*)}', lambda mo: '(?:%s)' % env[mo.group('macro')], v)
+        return v
+
+    return {
+        '_usedMacros': env,
+        '_profileNames': [n for n, _, _ in content],
+        '_rawProfiles': {n: {'properties': dict(p), 'macros': dict(mc)} for n, p, mc in content},
+        '_profilesProperties': {n: {k: expand(v) for k, v in p.items()} for n, p, mc in content},
+        '_knownNames': sorted(k for _, p, _ in content for k in p),
+    }
+
+
+def r14h(chk, rid='R14.h'):
+    chk.rule(rid, 'inductive step on generic instances: the state prescribed for a registry content (macro environment = built-in macros + the macros of the registered profiles in order; every table = raw patterns expanded in that environment; names; known names; raw copies) is preserved by every registry operation. addProfile / addProfiles / removeProfile / _resetProperties (with the helpers they call, resolved in the class) are evaluated on their syntax trees from the prescribed state of a two-profile registry for each case their conditions distinguish - no macros, new macros, macros shadowing a built-in macro, macros shadowing another profile\'s macro, removing the first / the last / an unknown profile / all - and the resulting state is compared with the prescribed state of the new content')
+    import copy
+    import re as _re
+
+    from sa.absint import Evaluator, Raised, Record
+
+    m = chk.repo.mod(P)
+    boot = Evaluator(m.get('Profiles.__init__'), module=m, cls='Profiles')
+    builtin = {}
+    for nm in ('_TOKEN_MACROS', '_MACROS'):
+        mem = boot._class_member(nm)
+        if mem is None:
+            raise AnalysisError(f'Profiles.{nm} not found')
+        builtin.update(boot.expr(mem.value, {}))
+    tok = sorted(builtin)[0]
+    # generic profiles: distinct atoms, A shadows a built-in macro, B shadows a macro of A
+    A = ('A', {'pa': 'a{ma}{%s}' % tok, 'both': 'x{ma}'}, {'ma': 'A1', tok: 'A-%s' % tok})
+    B = ('B', {'pb': 'b{mb}{ma}', 'both': 'y'}, {'mb': 'B1', 'ma': 'B-ma'})
+    N = ('N', {'pn': 'n{%s}' % tok}, {})  # no macros
+    F = ('F', {'pf': 'f{mf}'}, {'mf': 'F1'})  # fresh macros
+    S = ('S', {'ps': 's{%s}' % tok}, {tok: 'S-%s' % tok})  # shadows a built-in (and A's shadow of it)
+    T = ('T', {'pt': 't{mb}'}, {'mb': 'T-mb'})  # shadows a macro of profile B
+    intr = {'re.search': _re.search, 're.sub': _re.sub, 're.compile': _re.compile, 'self._compile_regexes': lambda d: d}
+
+    def registry(content):
+        st = copy.deepcopy(_reference_state(builtin, content))
+        return Record(_log=None, _defaultProfiles=None, **st)
+
+    def observe(me):
+        return {'_usedMacros': dict(me._usedMacros), '_profileNames': list(me._profileNames),
+                '_rawProfiles': {k: {kk: dict(vv) for kk, vv in v.items()} for k, v in me._rawProfiles.items()},
+                '_profilesProperties': {k: dict(v) for k, v in me._profilesProperties.items()},
+                '_knownNames': sorted(me._knownNames)}
+
+    def case(label, start, fn_name, args, want_content, raises=None):
+        me = registry(start)
+        fn = m.get(f'Profiles.{fn_name}')
+        ev = Evaluator(fn, intrinsics=intr, model_types=(_re.Pattern, _re.Match), module=m, cls='Profiles')
+        res = ev.run(self=me, **copy.deepcopy(args))
+        got = observe(me)
+        want = _reference_state(builtin, want_content)
+        diffs = [k for k in want if got[k] != want[k]]
+        detail = ''
+        ok = not diffs
+        if raises:
+            ok = ok and isinstance(res, Raised) and res.kind == raises
+            if not (isinstance(res, Raised) and res.kind == raises):
+                detail = f'expected {raises}, got {res!r}; '
+        elif isinstance(res, Raised):
+            ok, detail = False, f'raises {res.kind}; '
+        for k in diffs[:2]:
+            g, w = got[k], want[k]
+            if isinstance(g, dict) and isinstance(w, dict):
+                keys = [x for x in sorted(set(g) | set(w), key=str) if g.get(x) != w.get(x)][:2]
+                detail += f'{k}: ' + '; '.join(f'{x!r} is {g.get(x)!r}, prescribed {w.get(x)!r}' for x in keys) + ' '
+            else:
+                detail += f'{k} is {g!r}, prescribed {w!r} '
+        chk.ob(rid, P, f'Profiles.{fn_name}', label, ok, detail[:400])
+
+    AB = [A, B]
+    for X, what in ((N, 'without macros'), (F, 'with new macros'), (S, 'whose macros shadow a built-in macro'), (T, "whose macros shadow another profile's macro")):
+        case(f'addProfile of a profile {what}', AB, 'addProfile', {'profile': X[0], 'properties': X[1], 'macros': X[2] or None}, AB + [X])
+        case(f'addProfiles with one profile {what}', AB, 'addProfiles', {'profiles': [X]}, AB + [X])
+        case(f'removeProfile of a profile {what}', AB + [X], 'removeProfile', {'profile': X[0]}, AB)
+    case('addProfiles with two profiles sharing macros', [A], 'addProfiles', {'profiles': [B, F]}, [A, B, F])
+    case('addProfile on the empty registry', [], 'addProfile', {'profile': A[0], 'properties': A[1], 'macros': A[2]}, [A])
+    case('removeProfile of the first profile (its macro is shadowed by a later one)', AB, 'removeProfile', {'profile': 'A'}, [B])
+    case('removeProfile of the last profile', [A], 'removeProfile', {'profile': 'A'}, [])
+    case('removeProfile(all=True)', AB + [F], 'removeProfile', {'all': True}, [])
+    case('removeProfile of an unknown profile is rejected and changes nothing', AB, 'removeProfile', {'profile': 'nope'}, AB, raises='NoSuchProfileException')
+    case('_resetProperties re-derives everything from the raw profiles', AB, '_resetProperties', {}, AB)
